@@ -50,13 +50,16 @@ def cases(tier, seed):
         if h % 9 == 4 and nch >= 2:
             chain = [[[names[0], names[1]], [names[1], names[0]]]]   # a swap
         yield "rn.rename", {"table": table, "names": names, "mode": mode, "px": px, "renames": chain,
-                            "encoding": "enum" if h % 2 == 0 else "int"}
+                            "encoding": "enum" if h % 2 == 0 else "int",
+                            # at the file root / in a nested group, alone or beside another collection with the same names
+                            "group": ["/", "/resolutions/2", "/", "/a/b"][h % 4], "sibling": h % 8 in (1, 2, 7)}
 
 
 def run(tier, seed, only_case=None):
     r = Run("C18", tier, seed, replay=only_case is not None)
     r.rule = ("one case = (cooler on 1-3 chromosomes, fixed / variable / one-bin tables; chain of 1-3 partial injective renaming maps "
-              "with longer/shorter names, swaps, names not present; enum or integer chromosome encoding). After every renaming the "
+              "with longer/shorter names, swaps, names not present; enum or integer chromosome encoding; collection at the file root or in a nested group, alone or beside another collection "
+              "with the same chromosome names, which must stay as it was). After every renaming the "
               "SAME Cooler object and a freshly opened one are projected (chromosome names and table, lengths, bin labels and "
               "coordinates, pixels, extent and two-region matrix fetch by every new name, lookups by vanished old names) together "
               "with everything else in the file raw (bins, pixels, indexes, attributes) as one canonical string. non-trivial always.")
